@@ -51,6 +51,13 @@ def highs(c, l, u, A, lo, hi, integrality=None, time_limit=60., maximize_minus_c
         opts['mip_rel_gap'] = 0.0
     r = milp(c, constraints=cons, bounds=Bounds(np.asarray(l, float), np.asarray(u, float)),
              integrality=integrality, options=opts)
+    if r.status == 2:
+        # the bundled HiGHS presolve occasionally declares a feasible MILP infeasible (observed: EAO's returned point satisfied every
+        # row and bound exactly): an infeasibility verdict counts only if the solve without presolve agrees
+        opts2 = dict(opts, presolve=False)
+        r2 = milp(c, constraints=cons, bounds=Bounds(np.asarray(l, float), np.asarray(u, float)), integrality=integrality, options=opts2)
+        if r2.status != 2:
+            r = r2
     st = {0: 'optimal', 1: 'other', 2: 'infeasible', 3: 'unbounded', 4: 'other'}.get(r.status, 'other')
     return {'status': st, 'value': (-r.fun if r.x is not None and r.fun is not None else None), 'x': r.x, 'raw': r.status}
 
